@@ -15,7 +15,7 @@ CHECKS = {
              "regenerated catalogue over a 58-type universe (decide +kernel, no native_decide), plus permutation invariance of the ambiguity test and "
              "totality of lca_type. The model of the trie walk is executed against the real SignatureTrie on every enumerated tuple (230k requests) and "
              "the property's clauses are evaluated on the real answers, across PYTHONHASHSEEDs and with reversed declaration order. Unbounded parts "
-             "(all n of String(n), all Decimal(p,s), vararg arity > 3) are represented by instances: partial, stated in the evidence.",
+             "(all n of String(n), all Decimal(p,s), vararg arity > 3) are represented by instances: partial, stated in the evidence. typed_literal_stream: a literal with an explicit dtype is accepted wherever a const parameter accepts the plain literal, with the same result type, and constness propagates alike.",
         design_ref="DESIGN.md section 5, C13",
         note=NOTE_COMMON + "Defects D7, D24, D25 found by this check were repaired in /repo (fix: commits, listed under fixed in known_findings.json); the theorems are stated without guards and carry regression witnesses.",
     ),
@@ -48,7 +48,7 @@ CHECKS = {
              "Kleene tables, De Morgan, SQL xor-as-!=, null propagation of arithmetic/comparisons, is_in = or-chain (False for the empty list), coalesce, "
              "fill_null, clip. The model Ops.ew is run against Polars and SQLite on a boundary grid for every modelled overload as column-column, "
              "column-literal and nested expressions. Partial: float-valued results and transcendental/round/pow/date operators are compared or listed "
-             "as not covered, not proved. The grid also runs every binary operator with the literal on the left (the reflected operators); element-wise float results of the two backends are compared with a relative 1e-12 and no absolute floor.",
+             "as not covered, not proved. The grid also runs every binary operator with the literal on the left (the reflected operators); element-wise float results of the two backends are compared with a relative 1e-12 and no absolute floor. temporal_stream compares every date / datetime component function with its documented value on both backends (grid with all weekdays, leap days, year ends); round is in the grid without ties against its documented value; every case is built alternately through the python operator and as a node; when the correspondence breaks and the backends agree, an independent python reading of the documentation (py_documented) yields the failing operand tuple.",
         design_ref="DESIGN.md section 5, C03",
         note=NOTE_COMMON + "Engine primitives (Polars floor division and modulo, SQLite scalar MAX/MIN/COALESCE/IN) are modelled definitions validated by the grid only.",
     ),
@@ -74,7 +74,7 @@ CHECKS = {
              "dialect objects (stub DBAPI modules) and checked for equal text, a single SELECT and allowed exceptions; a directed grid (harness/c19grid.py: "
              "every literal class x explicit dtype incl. typed nulls, every operator signature with a const parameter with plain and computed constants, "
              "window / aggregate operators with empty or duplicated context lists, unordered slices below subqueries) is built on the same dialects; "
-             "SQLAlchemy's renderer is not modelled.",
+             "SQLAlchemy's renderer is not modelled. The grid also has the N family (every unary Float function of the registry under round / aggregates / windows / casts) and engines given as URL strings with and without an explicit driver.",
         design_ref="DESIGN.md section 5, C19",
         note=NOTE_COMMON + "DuckDB / DB2 classes only when importable. Known findings D44, D49 are matched by trigger predicates, D69, D70, D72 by grid case and exception class.",
     ),
@@ -87,7 +87,7 @@ CHECKS = {
              "literal and the LIKE pattern inside the real build_query text must be what the model renders, and every string token must decode to the "
              "literal; the statement must keep its token skeleton. Oracle: SQLite vs Polars for equality, is_in, concatenation, starts_with / ends_with / "
              "contains, replace_all, case, constant mutate, fill_null, filter, with column data built from the same characters. Partial: the theorems "
-             "are about modelled third-party components (SQLAlchemy renderer, SQLite lexer and LIKE).",
+             "are about modelled third-party components (SQLAlchemy renderer, SQLite lexer and LIKE). The LIKE patterns of the PostgreSQL and SQL Server statements (not executed) must contain the escaped pattern as the SQLite statement does; shift fill values are literal positions too; known finding D89 is attributed by the literal.",
         design_ref="DESIGN.md section 5, C18",
         note=NOTE_COMMON + "SQLite's ASCII case-insensitive LIKE is outside the model (alphabet without case pairs, section 4.5).",
     ),
@@ -186,7 +186,7 @@ CHECKS = {
              "and compared (sequence under arrange, multiset otherwise); SQL may only refuse with SubqueryError / NotSupportedError. Both frames are compared with "
              "the Lean Spec's frame and SQLite's with the Lean SQL-compiler model's, and the Cache / check_subquery states with the front-end model. Partial: outside "
              "these fragments (filter after arrange, stacked arranges, summarize of expressions over aggregates, windows, joins, unions, subqueries) the refinement compile-then-evaluate = Spec is by "
-             "execution, not a theorem; SQLite's and Polars' evaluators are modelled.",
+             "execution, not a theorem; SQLite's and Polars' evaluators are modelled. temporal_pipelines: the date / datetime component functions as values, predicates, grouping keys and partitions on both backends. Generated programs spell a deterministic half of their operator nodes through the python operators (a + b, 1 - t.x, -x, ~p, a < b).",
         design_ref="DESIGN.md section 5, C01",
         note=NOTE_COMMON + "Known findings by trigger (see known_findings.json); D3, D18, D34, D36, D41 were repaired in /repo.",
     ),
@@ -216,7 +216,7 @@ CHECKS = {
              "row_number_spec, rank_spec, window_agg_spec, windowOp_rows, partitions_cover_rows / partition_is_key_class (every row in exactly one partition, a "
              "partition = the rows carrying its partition_by values), implicit_partition (preprocess_arg writes the grouping columns into partition_by) and "
              "group_mutate_ungroup_rows. Partial: Polars' rank-based emulation of descending/nulls_last inside over() and SQL's OVER clause are modelled and "
-             "compared, not proved; window functions are generated with total arrange= orders.",
+             "compared, not proved; window functions are generated with total arrange= orders. The ties stream also ranks (rank / dense_rank, function and method spelling) over a single unmarked nullable key: per backend every row has a rank and the ranks are those of one of the two null placements.",
         design_ref="DESIGN.md section 5, C05",
         note=NOTE_COMMON + "Known findings by trigger: D1, D2, D39 …",
     ),
@@ -274,7 +274,7 @@ CHECKS = {
              "exported Polars schema (exact on Polars, numeric family on SQLite), only all-null columns Null-typed, Table(exported frame) and collect() reproduce "
              "the types; a typed operator grid (harness/c12grid.py: every operator signature x every column dtype incl. date / datetime, constants of both "
              "signs) compares dtype() with the exported dtype on Polars and SQLite. Partial: expression-level soundness is assembled from these lemmas "
-             "through the typing correspondence rather than proved as one induction; temporal columns occur in the grid only, decimal / list columns nowhere.",
+             "through the typing correspondence rather than proved as one induction; temporal columns occur in the grid only, decimal / list columns nowhere. The typed grid has Int8 / UInt16 columns for every integer parameter, typed case / map shapes (also filtered to one row) and expressions over constants only.",
         design_ref="DESIGN.md section 5, C12",
         note=NOTE_COMMON + "D60 (Bool expression exported as Int64 from SQLite) was repaired in /repo; D75 - D78 (grid) are known findings.",
     ),
@@ -289,7 +289,7 @@ CHECKS = {
              "the real code only: deep fingerprints of every table, cache, AST node, expression object and source frame around every verb, export (twice, and again at "
              "the end of the history) and query build on Polars, SQLite and the SQL Server dialect compiler; one expression object reused under different group_by states "
              "and in mutate and summarize vs fresh objects; source frames and database tables unchanged. Expression API stream (harness/exprapi.py): every way of building an expression from a kept expression object (when / then continued from a "
-             "partial case expression, operators, registry methods, context arguments, use in verbs and exports) leaves the kept object and its value unchanged.",
+             "partial case expression, operators, registry methods, context arguments, use in verbs and exports) leaves the kept object and its value unchanged. pipeable_stream: stored verb objects and the containers handed to verbs (the on list of a join, the mapping of rename, key lists) are values: composing, applying and re-using them leaves them unchanged.",
         design_ref="DESIGN.md section 5, C10",
         note=NOTE_COMMON + "D6 (partition_by written into the user's expression object) was repaired in /repo. Memoised _dtype / _ftype (None -> value) are not counted as changes.",
     ),
